@@ -7,6 +7,7 @@ import re
 import shutil
 import signal
 import tempfile
+import time
 import traceback
 
 from vlib import core
@@ -15,11 +16,19 @@ LEVEL = 'proof'
 RULE = ('statements and programs mutated from the repository\'s own BASIC corpus (numeric and string literals replaced by '
         'boundary values), statement/function templates filled with boundary arguments, alone and after ON ERROR GOTO, '
         'byte soup and mutated tokenised/protected/ASCII files given to LOAD/RUN/MERGE/CHAIN, the documented default '
-        'Session() configuration, RENUM with active traps; a case is one Session.execute/evaluate call; distinct = distinct '
-        'input text; observable: the type of any exception leaving the session API other than Exit')
+        'Session() configuration, RENUM with active traps; structured families: every file statement x every device name '
+        '(SCRN: KYBD: LPTn: COMn: CAS1: NUL CON AUX PRN, disk) x every open mode, with keys typed for KYBD: reads and LPT '
+        'ports attached to files; OUT/INP/WAIT over the handled machine ports and their neighbours x register values in '
+        'every screen mode of every video adapter; SCREEN with all four arguments, PCOPY, VIEW/WINDOW/POINT/PSET/PMAP with '
+        'out-of-range coordinates, graphics GET/PUT with arrays of every type, tiny sizes and forged size records; DRAW '
+        'and PLAY strings from the GML/MML grammars with =/X pointer operands (all type bytes, real, offset and wild '
+        'pointers), extreme numbers and dot counts; one file under several numbers with SHARED/LOCK modes and '
+        'LOCK/UNLOCK/GET/PUT/CLOSE interleaved; the core of these spaces is swept systematically (kind matrix), the rest '
+        'sampled; a case is one Session.execute/evaluate call; distinct = distinct input text; observable: the type of any '
+        'exception leaving the session API other than Exit')
 EXPLANATION = ('PARTIAL: the theorems (PcbV.Props.C01) cover the funnel decision logic and the enumerated host-call sites '
                '(TIME$/DATE$ -> datetime, ENVIRON -> os.environ, RENUM trap remap, PEEK preset table, Integer.from_int -> '
-               'struct.pack, exponent byte) for every input; the global claim over all programs is NOT a theorem and is '
+               'struct.pack, exponent byte, VARPTR$ type byte, sprite unpack bounds, POINT pixel index) for every input; the global claim over all programs is NOT a theorem and is '
                'covered only by this exploration (generators above), which is also the failing-input search.')
 TRUSTED_BASE = ['site models in PcbV.Model.Funnel/Clock/IntOps/Mbf are hand transcriptions; the list of sites is finite and hand-chosen']
 ASSUMPTIONS = ['host exceptions from call sites outside the modelled ones are only searched for, not excluded by proof']
@@ -104,8 +113,346 @@ TEMPLATES = [
 BANNED = re.compile(br'\bSHELL\b|\bSYSTEM\b|\bTERM\b', re.I)
 
 
+# ---------------------------------------------------------------------------------------------------------------
+# structured families (added after eight escapes were found by hand that the template kinds did not reach):
+#   devices  every file statement against every device name and open mode
+#   ports    OUT / INP / WAIT over the documented machine ports in every screen mode of every adapter
+#   gfx      SCREEN with all four arguments, PCOPY, VIEW/WINDOW/POINT/PSET/PMAP with out-of-range coordinates,
+#            graphics GET/PUT with arrays of every type and tiny sizes, in every mode of every adapter
+#   macro    DRAW / PLAY strings from the GML / MML grammars with =/X pointer strings (all type bytes), extreme
+#            numbers and repeat counts
+#   locks    one file under several file numbers with SHARED / LOCK modes, LOCK/UNLOCK/GET/PUT/CLOSE interleaved
+
+VIDEO_MODES = [('cga', [0, 1, 2]), ('ega', [0, 1, 2, 7, 8, 9, 10]), ('vga', [0, 1, 2, 7, 8, 9]),
+               ('tandy', [0, 1, 2, 3, 4, 5, 6]), ('pcjr', [0, 1, 2, 3, 4, 5, 6]), ('hercules', [0, 3]), ('mda', [0]),
+               ('olivetti', [0, 1, 2, 3, 4]), ('ega_mono', [0, 10]), ('ega_64k', [0, 1, 2, 7, 8, 9]), (None, [0, 1, 2, 7, 8, 9])]
+
+DEVICE_NAMES = [b'SCRN:', b'KYBD:', b'LPT1:', b'LPT2:', b'LPT3:', b'COM1:', b'COM2:', b'CAS1:', b'NUL', b'CON', b'AUX', b'PRN',
+                b'F', b'C:F', b'@:F', b'A:F', b'NUL.X', b'CON.TXT', b'SCRN:X', b'LPT1:X', b'KYBD:X', b'LPT4:', b'COM3:',
+                b'nul', b'Scrn:', b'C:NUL', b'COM1:9600,N,8,1', b'LPT2:BIN']
+OPEN_MODES = [b'FOR INPUT', b'FOR OUTPUT', b'FOR APPEND', b'FOR RANDOM', b'', b'FOR RANDOM ACCESS READ',
+              b'FOR RANDOM ACCESS WRITE', b'FOR INPUT SHARED', b'FOR OUTPUT LOCK WRITE', b'FOR RANDOM LOCK READ WRITE']
+OPEN_LENS = [b'', b'', b'', b' LEN=1', b' LEN=2', b' LEN=128', b' LEN=32767', b' LEN=0', b' LEN=129']
+FILE_STMTS = [
+    b'PRINT#1,"A";1', b'PRINT#1,USING "##";1', b'WRITE#1,1,"A"', b'INPUT#1,A$', b'INPUT#1,A', b'INPUT#1,A$,B,C#',
+    b'LINE INPUT#1,A$', b'PRINT INPUT$(1,1)', b'PRINT INPUT$(3,#1)', b'GET 1', b'GET#1,2', b'PUT 1', b'PUT#1,2',
+    b'GET 1,{n}', b'PUT 1,{n}', b'PRINT EOF(1)', b'PRINT LOC(1)', b'PRINT LOF(1)', b'WIDTH #1,40', b'WIDTH #1,{n}',
+    b'LOCK #1', b'LOCK#1,1 TO 2', b'UNLOCK #1', b'UNLOCK#1,1 TO 2', b'FIELD 1,2 AS A$', b'FIELD 1,{n} AS A$,{n} AS B$',
+    b'FIELD 1,2 AS A$:LSET A$="AB":PUT 1:GET 1', b'CLOSE 1', b'CLOSE', b'RESET', b'PRINT IOCTL$(1)', b'IOCTL#1,"A"',
+    b'PRINT VARPTR(#1)', b'PRINT#1,STRING$(255,"A");:PRINT#1,TAB(300);SPC(300);',
+    b'PRINT#1,CHR$(13);CHR$(10);CHR$(8);CHR$(9);CHR$(12);CHR$(26);CHR$(0);', b'PRINT#1,TAB({n});SPC({n});{s}',
+    b'OPEN "{d}" AS 2', b'OPEN "{d}" FOR INPUT AS 2:CLOSE 1', b'LIST ,#1', b'PRINT#1,', b'WRITE#1', b'PRINT LPOS(1)',
+    b'DEF SEG:PRINT PEEK(VARPTR(#1))', b'PRINT#1,{s};:PRINT LOC(1);LOF(1)', b'A$=INPUT$({n},1)', b'GET#1:PUT#1:PRINT LOC(1)',
+]
+NAME_STMTS = [
+    b'LOAD "{d}"', b'LOAD "{d}",R', b'SAVE "{d}"', b'SAVE "{d}",A', b'SAVE "{d}",P', b'BLOAD "{d}"', b'BLOAD "{d}",0',
+    b'BSAVE "{d}",0,10', b'MERGE "{d}"', b'CHAIN "{d}"', b'CHAIN MERGE "{d}"', b'RUN "{d}"', b'FILES "{d}"', b'KILL "{d}"',
+    b'NAME "{d}" AS "Q"', b'NAME "Q" AS "{d}"', b'LIST ,"{d}"', b'LIST 1-2,"{d}"', b'WIDTH "{d}",40', b'WIDTH "{d}",255',
+    b'WIDTH "{d}",{n}', b'MKDIR "{d}"', b'CHDIR "{d}"', b'RMDIR "{d}"', b'OPEN "O",1,"{d}"', b'OPEN "I",#1,"{d}",1',
+    b'OPEN "R",1,"{d}",{n}', b'OPEN "A",2,"{d}"', b'OPEN "{d}" FOR OUTPUT AS 1:OPEN "{d}" FOR INPUT AS 2',
+    b'OPEN "{d}" FOR OUTPUT AS 1:KILL "{d}"', b'OPEN "{d}" AS 1:NAME "{d}" AS "Q"', b'LLIST', b'LPRINT "A";TAB(90);1',
+    b'LPRINT USING "##";1:PRINT LPOS(0);LPOS(1);LPOS(2);LPOS(3)', b'WIDTH LPRINT {n}:LPRINT {s}', b'LCOPY',
+    b'OPEN "{d}" FOR OUTPUT AS 1:PRINT#1,"10 PRINT 1":CLOSE:LOAD "{d}"', b'OPEN "{d}" FOR OUTPUT AS 1:SAVE "{d}"',
+    b'PRINT IOCTL$(#1)', b'MOTOR:OPEN "{d}" FOR INPUT AS 1', b'ON COM(1) GOSUB 10:COM(1) ON:OPEN "{d}" AS 1',
+]
+KEYS_FOR_KYBD = u'A,1\rB\r'
+
+# machine ports: the ones machine.py handles, their neighbours, a few classic ones, and the boundaries of the range
+PORTS_HANDLED = [0x60, 0x201, 0x3c5, 0x3cf, 0x3d8, 0x3d9, 0x378, 0x379, 0x37a, 0x278, 0x279, 0x27a,
+                 0x3f8, 0x3f9, 0x3fb, 0x3fc, 0x3fd, 0x3fe, 0x2f8, 0x2f9, 0x2fb, 0x2fc, 0x2fd, 0x2fe]
+PORTS_OTHER = [0, 1, 0x20, 0x21, 0x40, 0x41, 0x42, 0x43, 0x61, 0x62, 0x64, 0x200, 0x202, 0x3b4, 0x3b5, 0x3b8, 0x3ba, 0x3bc,
+               0x3bd, 0x3be, 0x3bf, 0x3c0, 0x3c2, 0x3c4, 0x3c6, 0x3c7, 0x3c8, 0x3c9, 0x3ce, 0x3d0, 0x3d4, 0x3d5, 0x3da,
+               0x3de, 0x3df, 0x3e8, 0x2e8, 0x3fa, 0x3ff, 0x2fa, 0x2ff, 0x277, 0x27b, 0x377, 0x37b, 0x7fff, 0x8000, 0xffff]
+PORT_VALUES = [b'0', b'1', b'2', b'3', b'4', b'7', b'8', b'15', b'16', b'&H1A', b'&H1E', b'32', b'&H38', b'64', b'&H80',
+               b'&H83', b'254', b'255', b'256', b'-1', b'32767', b'&H10', b'&H28', b'&H30', b'1.5']
+PORT_FOLLOW = [b'DEF SEG=&HA000:POKE {n},255:PRINT PEEK({n})', b'DEF SEG=&HB800:POKE {n},65:PRINT PEEK({n})',
+               b'PSET(1,1),1:PRINT POINT(1,1)', b'PRINT "X";', b'CLS', b'DEF SEG=&HA000:BSAVE "V",0,100', b'DEF SEG=&HA000:BLOAD "V"',
+               b'DEF SEG=&HB800:BSAVE "W",0,{n}', b'DEF SEG=&HB800:BLOAD "W",{n}', b'LPRINT "A";', b'PRINT STICK(0);STRIG(1)',
+               b'COLOR {n},{n}', b'SCREEN {m}', b'PALETTE {n},{n}']
+
+COORDS = [b'-32768', b'-32767', b'-1000', b'-641', b'-2', b'-1', b'0', b'1', b'2', b'7', b'8', b'9', b'10', b'11', b'49', b'50',
+          b'51', b'99', b'100', b'160', b'198', b'199', b'200', b'201', b'318', b'319', b'320', b'321', b'347', b'348', b'349',
+          b'350', b'351', b'399', b'400', b'479', b'480', b'638', b'639', b'640', b'641', b'719', b'720', b'1000', b'32766',
+          b'32767', b'.5', b'-.5', b'1E10', b'-1E10', b'1E38', b'32767.4', b'32767.5', b'-32768.5', b'65535', b'3.4E38',
+          b'1E-38', b'32768', b'-32769']
+SMALL = [b'0', b'1', b'2', b'3', b'4', b'5', b'6', b'7', b'8', b'9', b'15', b'16', b'24', b'25', b'-1', b'254', b'255', b'256']
+ATTRS = [b'0', b'1', b'2', b'3', b'4', b'7', b'15', b'16', b'-1', b'255', b'256', b'63', b'64', b'32767']
+GFX_ARRAYS = [b'T%', b'U%', b'V%', b'W!', b'X!', b'Y#', b'Z#', b'H%', b'H%', b'H%', b'L!', b'M#', b'S$', b'NX%']
+GFX_SETUP = b'DIM T%(0),U%(1),V%(2),W!(0),X!(1),Y#(0),Z#(1),H%(300),L!(100),M#(50),S$(3)'
+GFX_STMTS = [
+    b'SCREEN {m},{o},{p},{p}', b'SCREEN {m},{o},{p},{p}', b'SCREEN {m},{o},{p},{p}', b'SCREEN ,,{p},{p}', b'SCREEN {m}',
+    b'SCREEN {m},{o}', b'SCREEN ,{o},{p}', b'SCREEN {m},,{p}', b'SCREEN {m},,,{p}', b'PCOPY {p},{p}', b'PCOPY {p},{p}',
+    b'PRINT POINT({c},{c})', b'PRINT POINT({c},{c})', b'PRINT POINT({k})', b'PSET({c},{c}),{a}', b'PRESET({c},{c})',
+    b'PSET STEP({c},{c})', b'PRINT PMAP({c},{k})', b'VIEW ({e},{e})-({c},{c}),{a},{a}', b'VIEW ({e},{e})-({c},{c})',
+    b'VIEW ({c},{c})-({c},{c})', b'VIEW SCREEN ({e},{e})-({c},{c})', b'VIEW', b'WINDOW ({c},{c})-({c},{c})',
+    b'WINDOW SCREEN ({c},{c})-({c},{c})', b'WINDOW', b'LINE ({c},{c})-({c},{c}),{a}', b'LINE -({c},{c}),{a},B',
+    b'LINE ({c},{c})-({c},{c}),{a},BF', b'LINE ({c},{c})-({c},{c}),,,{c}', b'LINE STEP({c},{c})-STEP({c},{c})',
+    b'CIRCLE ({c},{c}),{c},{a}', b'CIRCLE ({c},{c}),{c},{a},{c},{c},{c}', b'CIRCLE ({e},{e}),{e},,-{k},-{k},{c}',
+    b'PAINT ({c},{c}),{a},{a}', b'PAINT ({e},{e}),CHR$({b})+CHR$({b})+CHR$({b}),{a}', b'PAINT ({e},{e}),{a},{a},CHR$({b})',
+    b'CLS', b'CLS {k}', b'GET ({c},{c})-({c},{c}),{arr}', b'GET ({e},{e})-({e},{e}),{arr}', b'GET ({e},{e})-STEP({e},{e}),{arr}',
+    b'PUT ({c},{c}),{arr}', b'PUT ({e},{e}),{arr},{op}', b'PUT ({e},{e}),{arr}', b'PUT ({e},{e}),{arr}',
+    b'{arr}(0)={c}:{arr}(1)={c}', b'H%(0)={e}:H%(1)={e}', b'V%(0)={e}:V%(1)={e}', b'X!(0)=CVS(MKI$({e})+MKI$({e}))',
+    b'ERASE H%:DIM H%({k})', b'DRAW "M{c},{c}"', b'DRAW "BM+{c},-{c}"', b'DRAW "U{c}R{c}"', b'DRAW "TA{c}S{b}A{k}U9"',
+    b'COLOR {a},{a}', b'COLOR {a},{a},{a}', b'PALETTE {a},{a}', b'PALETTE', b'PALETTE USING H%({k})', b'WIDTH {w}',
+    b'WIDTH {w},{k}', b'LOCATE {k},{k}', b'LOCATE {k},{k},{k},{k},{k}', b'PRINT "X";', b'PRINT STRING$(90,65)',
+    b'VIEW PRINT {k} TO {k}', b'VIEW PRINT', b'DEF SEG=&HB800:POKE {c},{b}', b'DEF SEG=&HA000:POKE {c},{b}',
+    b'DEF SEG=&HB800:BLOAD "V",{c}', b'DEF SEG=&HB800:BSAVE "V",{c},{c}', b'PRINT SCREEN({k},{k})', b'PRINT SCREEN({k},{k},1)',
+    b'KEY ON', b'KEY OFF', b'VIEW ({e},{e})-({c},{c}):PRINT POINT({c},{c})', b'VIEW ({e},{e})-({c},{c}):PSET({c},{c}):PRINT POINT({c},{c})',
+    b'WINDOW ({c},{c})-({c},{c}):PRINT PMAP({c},{k});POINT({c},{c})', b'PRINT POINT({c},{c});POINT({e},{c});POINT({c},{e})',
+    b'OUT &H3C5,{b}', b'OUT &H3CF,{b}', b'OUT &H3D8,{b}', b'OUT &H3D9,{b}', b'PRINT CSRLIN;POS(0)', b'LCOPY', b'BEEP',
+]
+
+# macro languages
+GML_CMDS = [b'U', b'D', b'L', b'R', b'E', b'F', b'G', b'H', b'M', b'B', b'N', b'A', b'TA', b'C', b'S', b'P', b'X', b';', b' ', b'Z', b'T']
+MML_CMDS = [b'C', b'D', b'E', b'F', b'G', b'A', b'B', b'N', b'O', b'L', b'T', b'P', b'<', b'>', b'MN', b'ML', b'MS', b'MB', b'MF',
+            b'X', b'V', b';', b' ', b'M', b'Q']
+MACRO_NUMS = [b'0', b'1', b'2', b'3', b'4', b'6', b'7', b'8', b'9', b'12', b'31', b'32', b'63', b'64', b'65', b'84', b'85', b'100',
+              b'254', b'255', b'256', b'360', b'361', b'999', b'32767', b'32768', b'65535', b'65536', b'99999', b'4294967296',
+              b'99999999999999999999', b'-1', b'-0', b'+5', b'-32768', b'1.5', b'1E5', b'&H10', b'']
+MACRO_SETUP = (b'A%=3:B!=2.5:C#=4:D$="U2":E$="CDE":DIM I%(3),S$(2),R!(2),Q#(1):I%(1)=5:I%(2)=-7:S$(0)="R1":S$(1)="O3G":'
+               b'R!(1)=1E30:Q#(1)=-1D300:Z$="XZ$;":Y$="X"+VARPTR$(Y$):N%=-1:BIG!=1E38')
+MACRO_VARS = [b'A%', b'B!', b'C#', b'D$', b'E$', b'I%(1)', b'I%(2)', b'I%(3)', b'S$(0)', b'S$(1)', b'S$(2)', b'R!(1)', b'Q#(1)',
+              b'Z$', b'Y$', b'N%', b'BIG!', b'NOSUCH', b'NOSUCH$', b'I%(9)', b'I%(0', b'S$(-1)', b'A', b'I%(A%)', b'I%(I%(1))']
+
+LOCK_OPENS = [b'FOR RANDOM', b'FOR RANDOM SHARED', b'FOR RANDOM LOCK READ', b'FOR RANDOM LOCK WRITE', b'FOR RANDOM LOCK READ WRITE',
+              b'FOR RANDOM ACCESS READ SHARED', b'FOR RANDOM ACCESS WRITE SHARED', b'FOR RANDOM ACCESS READ WRITE SHARED', b'',
+              b'FOR INPUT', b'FOR INPUT SHARED', b'FOR INPUT LOCK READ', b'FOR OUTPUT', b'FOR OUTPUT SHARED', b'FOR APPEND',
+              b'FOR APPEND SHARED', b'FOR APPEND LOCK WRITE', b'FOR RANDOM SHARED', b'FOR RANDOM SHARED']
+LOCK_RECS = [b'1', b'1', b'2', b'2', b'3', b'4', b'0', b'-1', b'32767', b'65535', b'16777215', b'33554430', b'33554431',
+             b'33554432', b'33554433', b'1E10', b'.5', b'1.5']
+LOCK_OPS = [b'LOCK #{f}', b'LOCK #{f}', b'LOCK #{f},{r}', b'LOCK #{f},{r} TO {r}', b'LOCK #{f},{r} TO {r}', b'UNLOCK #{f}',
+            b'UNLOCK #{f},{r}', b'UNLOCK #{f},{r} TO {r}', b'GET #{f}', b'GET #{f},{r}', b'PUT #{f}', b'PUT #{f},{r}',
+            b'GET #{f},{r}', b'PUT #{f},{r}', b'CLOSE {f}', b'CLOSE {f}', b'FIELD {f},4 AS A$:LSET A$="ABCD"', b'PRINT#{f},"XY"',
+            b'INPUT#{f},A$', b'LINE INPUT#{f},A$', b'PRINT EOF({f});LOC({f});LOF({f})', b'WRITE#{f},1', b'LOCK {f},TO {r}',
+            b'UNLOCK {f}', b'LOCK #{f}:LOCK #{f}', b'LOCK #{f},{r}:UNLOCK #{f},{r}', b'KILL "{n}"', b'NAME "{n}" AS "LZ"',
+            b'RESET', b'CLOSE', b'OPEN "{n}" {o} AS {f}', b'OPEN "{n}" {o} AS {f} LEN=4', b'OPEN "{n}" {o} AS {f} LEN=4',
+            b'FILES', b'SAVE "{n}",A', b'BSAVE "{n}",0,8', b'BLOAD "{n}"', b'PRINT INPUT$(2,{f})']
+
+
+def _sub(rng, t, pools):
+    """fill {x} placeholders from pools (dict name -> list or callable)"""
+    out = t
+    for name, pool in pools.items():
+        ph = b'{' + name + b'}'
+        while ph in out:
+            v = pool(rng) if callable(pool) else rng.choice(pool)
+            out = out.replace(ph, v, 1)
+    return out
+
+
+def _chr_expr(data):
+    """BASIC string expression for arbitrary bytes"""
+    parts, run = [], b''
+    for i in range(len(data)):
+        c = data[i:i + 1]
+        if 32 <= c[0] < 127 and c != b'"':
+            run += c
+        else:
+            if run:
+                parts.append(b'"' + run + b'"')
+                run = b''
+            parts.append(b'CHR$(%d)' % c[0])
+    if run:
+        parts.append(b'"' + run + b'"')
+    return b'+'.join(parts) if parts else b'""'
+
+
+def _pointer_expr(rng):
+    """a VARPTR$-style operand: [type byte][pointer], of 0..4 bytes, as a BASIC string expression"""
+    k = rng.random()
+    var = rng.choice([b'A%', b'B!', b'C#', b'D$', b'E$', b'I%(0)', b'I%(1)', b'I%(3)', b'S$(0)', b'S$(1)', b'S$(2)', b'R!(2)',
+                      b'Q#(0)', b'Q#(1)', b'Z$', b'Y$'])
+    if k < 0.25:
+        return b'VARPTR$(' + var + b')'
+    if rng.random() < 0.6:
+        tb = rng.choice([0, 1, 2, 3, 4, 5, 6, 7, 8])
+    else:
+        tb = rng.randrange(256)
+    if k < 0.55:
+        off = rng.choice([b'', b'+1', b'+2', b'+3', b'-1', b'+4', b'+8', b'+6', b'+200', b'-2'])
+        return b'CHR$(%d)+MKI$(VARPTR(%s)%s)' % (tb, var, off)
+    if k < 0.8:
+        ptr = rng.choice([0, 1, 255, 256, 32767, 32768, 65535, rng.randrange(65536), rng.randrange(0x0e00, 0x1400)])
+        return _chr_expr(bytes([tb, ptr & 255, ptr >> 8]))
+    n = rng.choice([0, 1, 2, 2, 4])
+    return _chr_expr(bytes([tb] + [rng.randrange(256) for _ in range(n)][:n])[:max(n, 1) if n else 1]) if n else b'CHR$(%d)' % tb
+
+
+def _macro_expr(rng, play):
+    """a DRAW or PLAY operand built from the macro-language grammar; returns a BASIC string expression"""
+    parts = []
+    text = b'MB' if play else b''
+    budget = 200
+
+    def flush():
+        nonlocal text
+        if text:
+            parts.append(_chr_expr(text))
+            text = b''
+    for _ in range(rng.randrange(1, 9)):
+        if len(text) > budget:
+            break
+        cmd = rng.choice(MML_CMDS if play else GML_CMDS)
+        if rng.random() < 0.1:
+            cmd = cmd.lower()
+        text += rng.choice([b'', b'', b' ', b';'])
+        if cmd.upper() == b'X':
+            text += cmd
+            r = rng.random()
+            if r < 0.4:
+                text += rng.choice(MACRO_VARS) + rng.choice([b';', b';', b''])
+            else:
+                flush()
+                parts.append(_pointer_expr(rng))
+            continue
+        if play and cmd.upper() == b'MF':
+            cmd = b'MB'
+        text += cmd
+        if play and cmd.upper() in (b'C', b'D', b'E', b'F', b'G', b'A', b'B'):
+            text += rng.choice([b'', b'', b'#', b'+', b'-', b'##'])
+        if cmd.upper() == b'M' and not play:
+            text += rng.choice([b'', b'+', b'-']) + rng.choice(MACRO_NUMS) + rng.choice([b',', b',', b' ', b'']) + \
+                rng.choice([b'', b'+', b'-']) + rng.choice(MACRO_NUMS)
+            continue
+        r = rng.random()
+        if r < 0.4:
+            text += rng.choice([b'', b'', b'+', b'-', b' ']) + rng.choice(MACRO_NUMS)
+        elif r < 0.55:
+            text += b'=' + rng.choice(MACRO_VARS) + rng.choice([b';', b';', b';', b''])
+        elif r < 0.85:
+            text += rng.choice([b'', b'-', b'+']) + b'='
+            flush()
+            parts.append(_pointer_expr(rng))
+        if play and rng.random() < (0.6 if cmd.upper() in (b'C', b'D', b'E', b'F', b'G', b'A', b'B', b'N', b'P') else 0.1):
+            text += rng.choice([b'.', b'..', b'...', b' . .', b'.' * 10, b'.' * 40, b'.' * 70, b'.' * 80, b'.' * 110, b'.' * 150,
+                                b'.' * 230])[:max(0, 240 - len(text))]
+        if rng.random() < 0.1:
+            text += b','
+    flush()
+    if not parts:
+        parts = [b'""']
+    return b'+'.join(parts)
+
+
+def family_case(rng, kind, st):
+    """one case of a structured family: list of ('execute', bytes) / ('keys', str) operations.
+    `st` carries per-session facts (video adapter, mode list)."""
+    ops = []
+    if kind == 'devices':
+        dev = rng.choice(DEVICE_NAMES)
+        pools = {b'd': [dev], b'n': BOUNDARY_NUMS, b's': BOUNDARY_STRS}
+        if rng.random() < 0.3:
+            ops.append(('execute', _sub(rng, rng.choice(NAME_STMTS), pools)))
+        else:
+            mode = rng.choice(OPEN_MODES)
+            ops.append(('execute', b'OPEN "%s" %s AS 1%s' % (dev, mode, rng.choice(OPEN_LENS))))
+            for _ in range(rng.choice([1, 1, 2, 3])):
+                stmt = _sub(rng, rng.choice(FILE_STMTS), pools)
+                if dev.upper()[:4] in (b'KYBD', b'CON', b'CON.') and (b'INPUT' in stmt or b'EOF' in stmt or b'GET' in stmt):
+                    ops.append(('keys', KEYS_FOR_KYBD))
+                ops.append(('execute', stmt))
+        ops.append(('execute', b'CLOSE'))
+        if rng.random() < 0.1:
+            ops.append(('execute', b'KILL "F"'))
+    elif kind == 'ports':
+        port = rng.choice(PORTS_HANDLED) if rng.random() < 0.7 else rng.choice(PORTS_OTHER)
+        if rng.random() < 0.1:
+            port += rng.choice([-1, 1, 0x400, -0x10000])
+        pexpr = b'%d' % port
+        if 0 <= port <= 0xffff:
+            pexpr = rng.choice([pexpr, b'&H%X' % port, b'%d' % (port - 65536) if port >= 0x8000 else pexpr])
+        pools = {b'n': BOUNDARY_NUMS, b'v': PORT_VALUES, b'm': [b'%d' % m for m in st['modes']], b'p': [pexpr]}
+        r = rng.random()
+        if r < 0.5:
+            ops.append(('execute', _sub(rng, b'OUT {p},{v}', pools)))
+        elif r < 0.96:
+            ops.append(('execute', _sub(rng, rng.choice([b'PRINT INP({p})', b'A=INP({p}):OUT {p},A AND 255']), pools)))
+        else:
+            # WAIT returns at once when (INP XOR x) AND mask is non-zero; other cases run into the case timeout
+            ops.append(('execute', _sub(rng, rng.choice([b'WAIT {p},255,255', b'WAIT {p},{v},{v}', b'WAIT {p},255,{v}']), pools)))
+        if rng.random() < 0.35:
+            ops.append(('execute', _sub(rng, rng.choice(PORT_FOLLOW), pools)))
+    elif kind == 'gfx':
+        pools = {b'c': COORDS, b'e': [b'0', b'1', b'2', b'8', b'10', b'15', b'16', b'50', b'100', b'199', b'319', b'7', b'31', b'32'],
+                 b'a': ATTRS, b'b': [b'0', b'1', b'2', b'3', b'4', b'7', b'8', b'15', b'16', b'85', b'128', b'170', b'255'],
+                 b'k': SMALL, b'w': [b'20', b'40', b'80', b'0', b'255', b'41'], b'arr': GFX_ARRAYS,
+                 b'op': [b'PSET', b'PRESET', b'AND', b'OR', b'XOR'],
+                 b'm': [b'%d' % m for m in st['modes']] * 3 + [b'0', b'1', b'2', b'3', b'7', b'9', b'10', b'11', b'255', b'-1', b''],
+                 b'o': [b'', b'', b'0', b'1', b'2', b'255'], b'p': [b'', b'0', b'0', b'1', b'2', b'3', b'4', b'5', b'7', b'8', b'15', b'16', b'255', b'-1']}
+        ops.append(('execute', _sub(rng, rng.choice(GFX_STMTS), pools)))
+    elif kind == 'macro':
+        play = rng.random() < 0.45
+        expr = _macro_expr(rng, play)
+        if play:
+            ops.append(('execute', (b'PLAY ' + expr) if rng.random() < 0.85 or not st.get('multivoice')
+                        else b'PLAY ' + expr + b',' + _macro_expr(rng, True) + b',' + _macro_expr(rng, True)))
+            ops.append(('execute', b'SOUND 100,0'))
+        else:
+            ops.append(('execute', b'DRAW ' + expr))
+            if rng.random() < 0.1:
+                ops.append(('execute', b'PRINT POINT(0);POINT(1)'))
+    elif kind == 'locks' and rng.random() < 0.6:
+        # focused: one file under two or three numbers, all shared, valid numbers and records
+        n = rng.choice([2, 2, 3])
+        ops.append(('execute', b'RESET'))
+        for i in range(n):
+            ops.append(('execute', b'OPEN "L1" %s AS %d LEN=4' % (rng.choice([b'FOR RANDOM SHARED', b'FOR RANDOM SHARED', b'SHARED',
+                                                                               b'FOR RANDOM ACCESS READ WRITE SHARED', b'FOR RANDOM',
+                                                                               b'FOR INPUT SHARED', b'FOR APPEND SHARED']), i + 1)))
+        pools = {b'f': [b'%d' % (i + 1) for i in range(n)], b'r': [b'1', b'2', b'3', b'4', b'2']}
+        focused = [b'LOCK #{f}', b'LOCK #{f}', b'LOCK #{f},{r}', b'LOCK #{f},{r} TO {r}', b'UNLOCK #{f}', b'UNLOCK #{f},{r}',
+                   b'UNLOCK #{f},{r} TO {r}', b'GET #{f},{r}', b'PUT #{f},{r}', b'GET #{f}', b'PUT #{f}', b'GET #{f},{r}',
+                   b'PUT #{f},{r}', b'CLOSE {f}', b'PRINT LOC({f});LOF({f})', b'FIELD {f},4 AS A$:LSET A$="ABCD"']
+        for _ in range(rng.randrange(4, 11)):
+            ops.append(('execute', _sub(rng, rng.choice(focused), pools)))
+    elif kind == 'locks':
+        names = [b'L1', b'L1', b'L1', b'L2']
+        pools = {b'f': [b'1', b'2', b'3', b'1', b'2', b'4', b'0'], b'r': LOCK_RECS, b'n': names, b'o': LOCK_OPENS}
+        ops.append(('execute', b'RESET'))
+        for i in range(rng.choice([2, 2, 3])):
+            ops.append(('execute', b'OPEN "%s" %s AS %d LEN=%s' % (rng.choice(names), rng.choice(LOCK_OPENS), i + 1,
+                                                                    rng.choice([b'4', b'4', b'128', b'1']))))
+        for _ in range(rng.randrange(4, 12)):
+            ops.append(('execute', _sub(rng, rng.choice(LOCK_OPS), pools)))
+    return ops
+
+
 class CaseTimeout(BaseException):
     pass
+
+
+class limits(object):
+    """Bound what a BASIC statement can make the host write or (memory=True, single-session use only: every session
+    thread reserves address space) allocate: PUT #1,33554432 on a file with 128-byte records asked for 4 GiB.
+    Beyond the bounds the interpreter sees EFBIG / MemoryError like on a small machine."""
+    FSIZE, EXTRA_AS = 256 << 20, 2 << 30
+
+    def __init__(self, memory=False):
+        self.memory = memory
+
+    def __enter__(self):
+        import resource
+        self.old = []
+        signal.signal(signal.SIGXFSZ, signal.SIG_IGN)
+        want = [(resource.RLIMIT_FSIZE, self.FSIZE)]
+        if self.memory:
+            try:
+                vm = [int(l.split()[1]) << 10 for l in open('/proc/self/status') if l.startswith('VmSize:')][0]
+                want.append((resource.RLIMIT_AS, vm + self.EXTRA_AS))
+            except (EnvironmentError, IndexError, ValueError):
+                pass
+        for res, soft in want:
+            cur = resource.getrlimit(res)
+            self.old.append((res, cur))
+            hard = cur[1]
+            resource.setrlimit(res, (soft if hard == resource.RLIM_INFINITY else min(soft, hard), hard))
+        return self
+
+    def __exit__(self, *exc):
+        import resource
+        for res, cur in self.old:
+            resource.setrlimit(res, cur)
+        return False
 
 
 def _alarm(signum, frame):
@@ -197,8 +544,129 @@ def soup_file(rng, corpus_programs):
     return bytes(prog)
 
 
+CORE_DEVICES = [b'SCRN:', b'KYBD:', b'LPT1:', b'LPT2:', b'LPT3:', b'COM1:', b'COM2:', b'CAS1:', b'NUL', b'CON', b'AUX', b'PRN']
+SPRITE_HEADERS = [(8, 1), (32, 3), (32, 4), (-1, 1), (1, -1), (0, 0), (9, 2), (16, 300), (-1, -1)]
+POINT_EDGES = [198, 199, 200, 319, 320, 347, 349, 350, 399, 400, 479, 480, 639, 640, 719, 720]
+
+
+def matrix_cells(rng, thorough):
+    """Systematic sweeps (not sampled): returns a list of groups (session keywords, setup statements, cells); a cell is
+    a list of ('execute'|'keys', text) operations that starts from and returns to the set-up state."""
+    groups = []
+    # 1. every file statement against every core device under every basic open mode; every name statement
+    devs = DEVICE_NAMES if thorough else CORE_DEVICES
+    modes = OPEN_MODES if thorough else OPEN_MODES[:5]
+    for lpt in ([None, ['LPT1', 'LPT2', 'LPT3']] if thorough else [None]):
+        cells = []
+        for dev in devs:
+            pools = {b'd': [dev], b'n': BOUNDARY_NUMS, b's': BOUNDARY_STRS}
+            kybd = dev.upper()[:3] in (b'KYB', b'CON')
+            for mode in modes:
+                for stmt in FILE_STMTS:
+                    cell = [('execute', b'OPEN "%s" %s AS 1' % (dev, mode))]
+                    if kybd:
+                        cell.append(('keys', KEYS_FOR_KYBD))
+                    cell += [('execute', _sub(rng, stmt, pools)), ('execute', b'CLOSE')]
+                    cells.append(cell)
+            for stmt in NAME_STMTS:
+                cell = [('keys', KEYS_FOR_KYBD + u'\x1a')] if kybd else []
+                cells.append(cell + [('execute', _sub(rng, stmt, pools)), ('execute', b'CLOSE')])
+        groups.append(({'lpt_files': lpt} if lpt else {}, [], cells))
+    # 2. every handled port, OUT with the values that select register fields and INP, in every screen mode
+    adapters = VIDEO_MODES if thorough else [(None, [0, 1, 2, 7, 9])]
+    for video, vmodes in adapters:
+        kw = {'video': video} if video else {}
+        if video in ('tandy', 'pcjr'):
+            kw['syntax'] = video
+        for lpt in ([None, ['LPT1', 'LPT2']] if thorough else [None]):
+            if lpt:
+                kw = dict(kw, lpt_files=lpt)
+            for m in vmodes:
+                for width in ((40, 80) if m == 0 else (None,)):
+                    setup = [b'SCREEN %d' % m] + ([b'WIDTH %d' % width] if width else [])
+                    cells = []
+                    for port in PORTS_HANDLED + (PORTS_OTHER if thorough else []):
+                        for v in (0, 1, 0x1a, 0x38, 0x80, 255):
+                            cells.append([('execute', b'OUT &H%X,%d' % (port, v))])
+                        cells.append([('execute', b'A=INP(&H%X)' % port)])
+                        cells.append([('execute', b'WAIT &H%X,255,255' % port)] if thorough else [])
+                    groups.append((kw, setup, [c for c in cells if c]))
+    # 3. graphics PUT with arrays that are smaller than the sprite they describe, POINT at the screen edges under a
+    #    relative viewport, in every graphics mode of every adapter
+    for video, vmodes in VIDEO_MODES:
+        kw = {'video': video} if video else {}
+        if video in ('tandy', 'pcjr'):
+            kw['syntax'] = video
+        for m in vmodes:
+            if m == 0 and video is not None:
+                continue
+            cells = []
+            for arr in (b'T%', b'U%', b'V%', b'W!', b'X!', b'Y#', b'Z#'):
+                cells.append([('execute', b'PUT (0,0),%s' % arr)])
+                cells.append([('execute', b'GET (0,0)-(1,1),%s' % arr)])
+            for w, h in SPRITE_HEADERS:
+                for arr in (b'V%', b'H%'):
+                    cells.append([('execute', b'%s(0)=%d:%s(1)=%d:%s(2)=-1:PUT (0,0),%s,PSET' % (arr, w, arr, h, arr, arr))])
+            for rect in (b'(10,10)-(50,50)', b'(1,1)-(2,2)', b'SCREEN (10,10)-(50,50)'):
+                cell = [('execute', b'VIEW ' + rect)]
+                for e in POINT_EDGES:
+                    cell.append(('execute', b'A=POINT(0,%d)+POINT(%d,0)+POINT(%d,%d)' % (e, e, e, e)))
+                cell.append(('execute', b'VIEW'))
+                cells.append(cell)
+            groups.append((kw, [b'SCREEN %d' % m, GFX_SETUP], cells))
+    # 5. two numbers on one file: every pair (triple) of lock / unlock / record access operations
+    lock_ops = [b'LOCK #1', b'LOCK #1,2', b'LOCK #1,1 TO 3', b'LOCK #2', b'LOCK #2,2', b'LOCK #2,2 TO 4', b'UNLOCK #1', b'UNLOCK #2',
+                b'UNLOCK #1,2', b'UNLOCK #1,1 TO 3', b'GET #1,2', b'PUT #1,2', b'GET #2,2', b'PUT #2,2', b'GET #2', b'PUT #2',
+                b'CLOSE 1', b'CLOSE 2']
+    pairs = [(b'FOR RANDOM SHARED', b'FOR RANDOM SHARED')]
+    if thorough:
+        pairs += [(b'SHARED', b'FOR RANDOM ACCESS READ WRITE SHARED'), (b'FOR RANDOM SHARED', b'FOR INPUT SHARED'),
+                  (b'FOR APPEND SHARED', b'FOR RANDOM SHARED'), (b'FOR RANDOM', b'FOR RANDOM'), (b'FOR OUTPUT SHARED', b'FOR INPUT SHARED'),
+                  (b'FOR RANDOM LOCK WRITE', b'FOR RANDOM SHARED')]
+    cells = []
+    for m1, m2 in pairs:
+        for a in lock_ops[:6]:
+            for b in lock_ops:
+                for c in (lock_ops if thorough else [rng.choice(lock_ops)]):
+                    cells.append([('execute', b'RESET'), ('execute', b'OPEN "L1" %s AS 1 LEN=4' % m1),
+                                  ('execute', b'OPEN "L1" %s AS 2 LEN=4' % m2)] + [('execute', x) for x in (a, b, c)])
+    groups.append(({}, [], cells))
+    # 4. SCREEN with active and visible page omitted / first / last / beyond the last of some mode, from every other
+    #    mode; PCOPY between the same pages
+    pages = [b'', b'0', b'1', b'3', b'4', b'7', b'8', b'255'] if thorough else [b'', b'0', b'1', b'4', b'8']
+    for video, vmodes in (VIDEO_MODES if thorough else [(None, [0, 1, 2, 7, 8, 9])]):
+        kw = {'video': video} if video else {}
+        if video in ('tandy', 'pcjr'):
+            kw['syntax'] = video
+        cells = []
+        for m in vmodes:
+            for a in pages:
+                for v in pages:
+                    m0 = rng.choice(vmodes)
+                    cells.append([('execute', b'SCREEN %d' % m0), ('execute', b'SCREEN %d,,%s,%s' % (m, a, v)),
+                                  ('execute', b'PCOPY %s,%s' % (a or b'0', v or b'0'))])
+        groups.append((kw, [], cells))
+    return groups
+
+
+FAMILY_KINDS = ('devices', 'ports', 'gfx', 'macro', 'locks')
+
+
+def session_kw(kw, mount):
+    """expand the recorded pseudo-keyword lpt_files into device attachments below the scratch mount"""
+    kw = dict(kw)
+    lpt = kw.pop('lpt_files', None)
+    if lpt:
+        devices = dict(kw.get('devices') or {})
+        for name in lpt:
+            devices[name] = 'FILE:' + os.path.join(os.path.dirname(mount), name + '.prn')
+        kw['devices'] = devices
+    return kw
+
+
 def worker(args):
     seed, kind, n, repo, corpus, corpus_programs = args
+    t_start = time.time()
     rng = random.Random(seed)
     import sys
     if repo not in sys.path:
@@ -206,6 +674,7 @@ def worker(args):
     from pcbasic.basic import Session
     from pcbasic.basic.base import error
     signal.signal(signal.SIGALRM, _alarm)
+    limits().__enter__()
     import logging
     logging.disable(logging.CRITICAL)
     findings, stats, samples = [], {}, []
@@ -222,6 +691,7 @@ def worker(args):
     hist = []
     kwlog = [None]
     seen = set()
+    fam = {}
 
     def new_session():
         if session[0] is not None:
@@ -244,6 +714,25 @@ def worker(args):
         if kind == 'default':
             # the documented defaults for everything except the stdio streams
             kw = dict(output_streams=None, input_streams=None)
+        elif kind.startswith('matrix:'):
+            kw.update(devices={'C': mount}, current_device='C')
+            kw.update({k: v for k, v in fam.get('kw', {}).items() if v})
+        elif kind in FAMILY_KINDS:
+            kw.update(devices={'C': mount}, current_device='C')
+            fam['modes'] = [0, 1, 2, 7, 8, 9]
+            fam['multivoice'] = False
+            if kind in ('ports', 'gfx', 'macro') or rng.random() < 0.15:
+                video, fam['modes'] = rng.choice(VIDEO_MODES)
+                if video:
+                    kw['video'] = video
+                if video in ('tandy', 'pcjr'):
+                    kw['syntax'] = video
+                    fam['multivoice'] = True
+                elif rng.random() < 0.1:
+                    kw['syntax'] = 'advanced'
+            if kind in ('devices', 'ports') and rng.random() < 0.25:
+                # printer ports attached to files (the documented FILE: target)
+                kw['lpt_files'] = rng.choice([['LPT1'], ['LPT2'], ['LPT1', 'LPT2', 'LPT3']])
         else:
             kw.update(devices={'C': mount}, current_device='C')
             if rng.random() < 0.3:
@@ -255,8 +744,8 @@ def worker(args):
             if kw.get('syntax') == 'pcjr':
                 kw['video'] = 'pcjr'
         del hist[:]
-        kwlog[0] = {k: v for k, v in kw.items() if k in ('video', 'syntax')}
-        s = Session(**kw)
+        kwlog[0] = {k: v for k, v in kw.items() if k in ('video', 'syntax', 'lpt_files')}
+        s = Session(**session_kw(kw, mount))
         s.start()
         limit = [0]
 
@@ -278,6 +767,8 @@ def worker(args):
         try:
             if how == 'evaluate':
                 s.evaluate(text)
+            elif how == 'keys':
+                s.press_keys(text.decode('latin-1'))
             else:
                 s.execute(text)
             signal.setitimer(signal.ITIMER_REAL, 0)
@@ -326,7 +817,7 @@ def worker(args):
     try:
         i = 0
         while i < n:
-            if session[0] is None or rng.random() < 0.04:
+            if kind not in FAMILY_KINDS and (session[0] is None or rng.random() < 0.04):
                 new_session()
             if kind in ('templates', 'default'):
                 text = fill(rng, rng.choice(TEMPLATES))
@@ -355,6 +846,60 @@ def worker(args):
                 if i < 2:
                     samples.append(text.decode('latin-1'))
                 i += 1
+            elif kind.startswith('matrix:'):
+                # deterministic sweep, sharded over the workers: kind = 'matrix:<shard>/<shards>:<tier>'
+                _m, shard, tier = kind.split(':')
+                shard, shards = [int(x) for x in shard.split('/')]
+                index = 0
+                for kw_extra, setup, cells in matrix_cells(random.Random(seed), tier == 'thorough'):
+                    mine = []
+                    for cell in cells:
+                        if index % shards == shard:
+                            mine.append(cell)
+                        index += 1
+                    fam['kw'] = kw_extra
+                    session[0] = None
+                    for cell in mine:
+                        if session[0] is None or len(hist) + len(cell) > 50:
+                            new_session()
+                            for text in setup:
+                                run_one(text)
+                        for how, text in cell:
+                            if session[0] is None:
+                                break
+                            run_one(text.encode('latin-1') if how == 'keys' else text, how)
+                        if i < 1:
+                            samples.append([t.decode('latin-1') if isinstance(t, bytes) else t for _h, t in cell][:6])
+                        i += 1
+                break
+            elif kind in FAMILY_KINDS:
+                # the replayable history holds at most 60 entries: start over before it would be cut
+                if session[0] is None or len(hist) > 40 or rng.random() < 0.03:
+                    new_session()
+                    setup = []
+                    if kind in ('ports', 'gfx', 'macro'):
+                        setup.append(b'SCREEN %d' % rng.choice(fam['modes']))
+                    if kind == 'gfx':
+                        setup.append(GFX_SETUP)
+                    if kind == 'macro':
+                        setup.append(MACRO_SETUP)
+                    if kind == 'ports' and rng.random() < 0.3:
+                        setup.append(b'PSET(3,3),1:LOCATE 2,2:PRINT "AB"')
+                    for text in setup:
+                        run_one(text)
+                ops = family_case(rng, kind, fam)
+                for how, text in ops:
+                    if session[0] is None:
+                        break
+                    if how == 'keys':
+                        run_one(text.encode('latin-1'), 'keys')
+                    else:
+                        if BANNED.search(text):
+                            continue
+                        run_one(text)
+                if i < 2:
+                    samples.append([t.decode('latin-1') if isinstance(t, bytes) else t for _h, t in ops][:6])
+                i += max(1, len([1 for h, _t in ops if h == 'execute']))
             elif kind == 'corpus':
                 if rng.random() < 0.5:
                     text = mutate(rng, rng.choice(corpus))
@@ -437,6 +982,9 @@ def worker(args):
         os.chdir(cwd)
         shutil.rmtree(root, ignore_errors=True)
     stats['distinct_inputs'] = len(seen)
+    if os.environ.get('C01_TIMING'):
+        import sys as _s
+        _s.stderr.write('[C01 timing] %-28s %6.1f s  %s\n' % (kind, time.time() - t_start, {k: v for k, v in stats.items()}))
     return findings, stats, samples
 
 
@@ -455,21 +1003,36 @@ def explore(ctx, plan, nproc=None):
     ctx.notes['corpus_lines'] = len(corpus)
     tasks = []
     for kind, total in plan:
-        per = max(1, total // nproc)
+        per = 0 if kind == 'matrix' else max(1, total // nproc)
+        if kind == 'matrix':
+            # one seed for all shards: every shard enumerates the same cells and runs its own residue class
+            mseed = ctx.rng.randrange(2**31)
+            for w in range(nproc):
+                tasks.append((mseed, 'matrix:%d/%d:%s' % (w, nproc, total), 10**9, core.REPO, corpus, corpus_programs))
+            continue
         for w in range(nproc):
             tasks.append((ctx.rng.randrange(2**31), kind, per, core.REPO, corpus, corpus_programs))
     with multiprocessing.get_context('fork').Pool(nproc) as pool:
         results = pool.map(worker, tasks, chunksize=1)
+    allfindings = []
     for (findings, stats, samples), task in zip(results, tasks):
         for k, v in stats.items():
-            ctx.count('%s:%s' % (task[1], k), v)
+            ctx.count('%s:%s' % (task[1].split(':')[0], k), v)
             if k == 'cases':
                 ctx.evaluations += v
-        for f in findings:
-            ctx.distinct.add(f['input'])
-            ctx.fail(f['key'], f, 'host exception escaped the session API: %s (input %r)' % (f['exception'], f['input'][:120]))
+        allfindings.extend(findings)
         for smp in samples[:1]:
-            ctx.sample({'kind': task[1], 'case': smp})
+            ctx.sample({'kind': task[1].split(':')[0], 'case': smp})
+    # the context keeps a bounded number of failures: register one per distinct key first, so that a frequent
+    # escape cannot hide a rare one
+    firsts, rest, keys_seen = [], [], set()
+    for f in allfindings:
+        (rest if f['key'] in keys_seen else firsts).append(f)
+        keys_seen.add(f['key'])
+    for f in firsts + rest:
+        ctx.distinct.add(f['input'])
+        ctx.count('escape:' + f['key'])
+        ctx.fail(f['key'], f, 'host exception escaped the session API: %s (input %r)' % (f['exception'], f['input'][:120]))
     # distinct count: distinct (call kind, input text) per worker, summed over workers (inputs repeated in two
     # workers are counted twice; the set-up statements NEW / RUN are counted once per worker)
     nd = sum(st.get('distinct_inputs', 0) for _f, st, _s in results)
@@ -521,6 +1084,32 @@ FIXED_HISTORIES = [
     [['execute', 'FOR I=1.7E38 TO 255 STEP 1E38:NEXT'], ['execute', 'PRINT 1 IMP "a"'], ['execute', 'PRINT HEX$(-65537)']],
     [['execute', 'DEF SEG=&HB800:BSAVE "V",&HFFFF,&H8000'], ['execute', 'SCREEN 1:A$="XA$;":DRAW A$']],
     [['execute', 'TIME$="-1:00:00"'], ['execute', 'ENVIRON "A=B"+CHR$(0)+"C"'], ['execute', 'PRINT &O1 2']],
+    # escapes found by independent testers by hand and then by the structured families (pending_fixes/C01-*)
+    [['execute', 'OUT &H3C5,1'], ['execute', 'OUT &H3CF,1']],
+    [['execute', 'OUT &H37A,1'], ['execute', 'PRINT INP(&H379)']],
+    [['session', {'lpt_files': ['LPT1', 'LPT2']}], ['execute', 'OUT &H27A,1'], ['execute', 'PRINT INP(&H279)'],
+     ['execute', 'MERGE "LPT1:"']],
+    [['execute', 'SCREEN 1:DRAW "U="+CHR$(7)+CHR$(0)+CHR$(1)'], ['execute', 'PLAY "X"+CHR$(5)+CHR$(0)+CHR$(0)']],
+    [['execute', 'SCREEN 1:DIM A%(3):A%(2)=5:DRAW "U="+CHR$(2)+MKI$(VARPTR(A%(3))+1)'],
+     ['execute', 'DIM A$(3):A$(0)="U3":A$(1)="R3":DRAW "X"+CHR$(3)+MKI$(VARPTR(A$(0))+1)'],
+     ['execute', 'DRAW "X"+CHR$(3)+MKI$(VARPTR(A$(0))+2)']],
+    [['execute', 'OPEN "LPT2:" FOR OUTPUT AS 1:PRINT#1,"A"'], ['execute', 'CLOSE'], ['execute', 'WIDTH "LPT3:",40'],
+     ['execute', 'SAVE "LPT2:"'], ['execute', 'OPEN "LPT3:" AS 1:CLOSE']],
+    [['execute', 'OPEN "NUL" FOR INPUT AS 1:INPUT#1,A$'], ['execute', 'PRINT LOF(1);LOC(1)'],
+     ['execute', 'CLOSE:OPEN "NUL" AS 1:GET 1'], ['execute', 'PUT 1']],
+    [['execute', 'OPEN "SCRN:" AS 1:INPUT#1,A$'], ['execute', 'LINE INPUT#1,A$'], ['execute', 'GET 1'], ['execute', 'PUT 1'],
+     ['execute', 'CLOSE:OPEN "KYBD:" AS 1:PUT 1'], ['execute', 'GET 1']],
+    [['execute', 'PLAY "MBC"+STRING$(80,".")'], ['execute', 'PLAY "MBL1T32N1"+STRING$(240,".")']],
+    [['execute', 'SCREEN 1:DIM A%(0):PUT (0,0),A%'], ['execute', 'DIM B%(6):B%(0)=32:B%(1)=3:PUT (0,0),B%']],
+    [['execute', 'SCREEN 1:VIEW (10,10)-(50,50):PRINT POINT(0,199)'], ['execute', 'PRINT POINT(315,0)']],
+    [['session', {'video': 'tandy', 'syntax': 'tandy'}], ['execute', 'SCREEN 6:DIM A%(2):A%(0)=-1:A%(1)=1:PUT (0,0),A%'],
+     ['execute', 'DIM B%(0):PUT (0,0),B%']],
+    [['session', {'video': 'ega'}], ['execute', 'SCREEN 9:DIM H%(30):PALETTE USING H%(-1)'], ['execute', 'PALETTE USING H%(1,2)'],
+     ['execute', 'OPTION BASE 1:DIM G%(30):PALETTE USING G%(0)'], ['execute', 'DIM T%(1):PUT (0,0),T%']],
+    [['session', {'video': 'vga'}], ['execute', 'SCREEN 1:WINDOW (1,3.4E38)-(719,50):PRINT PMAP(399,3)'],
+     ['execute', 'PSET(5,1.7E38):PRINT POINT(3)']],
+    # asked for a 4 GiB string of NULs (MemoryError under the address-space bound set by `limits`)
+    [['execute', 'OPEN "R" AS 1 LEN=128:FIELD 1,2 AS A$:PUT 1,33554432']],
 ]
 
 
@@ -529,13 +1118,29 @@ def fixed_histories(ctx):
     from pcbasic.basic import Session
     from pcbasic.basic.base import error
     signal.signal(signal.SIGALRM, _alarm)
+    import logging
+    logging.disable(logging.CRITICAL)
+    try:
+        with limits(memory=True):
+            _fixed_histories(ctx, Session, error)
+    finally:
+        logging.disable(logging.NOTSET)
+
+
+def _fixed_histories(ctx, Session, error):
     for hi, history in enumerate(FIXED_HISTORIES):
         root = tempfile.mkdtemp(prefix='pcbv_c01f_')
         cwd = os.getcwd()
         mount = os.path.join(root, 'a', 'b', 'mount')
         os.makedirs(mount)
         os.chdir(mount)
-        s = Session(output_streams=None, input_streams=None, devices={'C': mount}, current_device='C')
+        kw = dict(output_streams=None, input_streams=None, devices={'C': mount}, current_device='C')
+        skw = None
+        if history and history[0][0] == 'session':
+            skw = history[0][1]
+            kw.update(skw)
+            history = history[1:]
+        s = Session(**session_kw(kw, mount))
         s.start()
         done = []
         try:
@@ -544,6 +1149,9 @@ def fixed_histories(ctx):
                 if h[0] == 'file':
                     with open(os.path.join(mount, h[1]), 'wb') as f:
                         f.write(bytes.fromhex(h[2]))
+                    continue
+                if h[0] == 'keys':
+                    s.press_keys(h[1])
                     continue
                 ctx.case(('fixed', hi, h[1]))
                 ctx.count('fixed:cases')
@@ -564,7 +1172,8 @@ def fixed_histories(ctx):
                             key += ':after-fuzzed-binary-program-file'
                     except Exception:
                         pass
-                    ctx.fail(key, {'kind': 'fixed', 'how': 'execute', 'input': h[1], 'history': [list(x) for x in done]},
+                    ctx.fail(key, {'kind': 'fixed', 'how': 'execute', 'input': h[1], 'history': [list(x) for x in done],
+                                   'session_kw': skw},
                              'host exception escaped the session API: %s: %s (input %r)' % (type(e).__name__, e, h[1]))
                     break
                 finally:
@@ -580,13 +1189,20 @@ def fixed_histories(ctx):
 
 def run(ctx):
     site_models(ctx)
-    fixed_histories(ctx)
+    if not os.environ.get('C01_NO_FIXED'):
+        fixed_histories(ctx)
     if ctx.quick:
-        plan = [('templates', 2100), ('corpus', 1700), ('files', 560), ('default', 420), ('renum', 280)]
+        plan = [('templates', 2100), ('corpus', 1700), ('files', 560), ('default', 420), ('renum', 280),
+                ('matrix', 'quick'), ('devices', 400), ('ports', 300), ('gfx', 1600), ('macro', 2000), ('locks', 1200)]
     else:
-        plan = [('templates', 120000), ('corpus', 120000), ('files', 30000), ('default', 14000), ('renum', 14000)]
+        plan = [('templates', 120000), ('corpus', 120000), ('files', 30000), ('default', 14000), ('renum', 14000),
+                ('matrix', 'thorough'), ('devices', 60000), ('ports', 20000), ('gfx', 60000), ('macro', 60000),
+                ('locks', 60000)]
+    only = os.environ.get('C01_KINDS')
+    if only:
+        plan = [(k, n) for k, n in plan if k in only.split(',')]
     scale = float(os.environ.get('C01_SCALE', '1'))
-    explore(ctx, [(k, int(n * scale)) for k, n in plan])
+    explore(ctx, [(k, n if k == 'matrix' else int(n * scale)) for k, n in plan])
 
 
 def replay(ctx, payload):
@@ -596,6 +1212,11 @@ def replay(ctx, payload):
     from pcbasic.basic import Session
     from pcbasic.basic.base import error
     signal.signal(signal.SIGALRM, _alarm)
+    with limits(memory=True):
+        return _replay(case, Session, error)
+
+
+def _replay(case, Session, error):
     root = tempfile.mkdtemp(prefix='pcbv_c01r_')
     cwd = os.getcwd()
     try:
@@ -608,7 +1229,9 @@ def replay(ctx, payload):
         else:
             kw.update(devices={'C': mount}, current_device='C')
             kw.update(case.get('session_kw') or {})
-        s = Session(**kw)
+        if case.get('kind') == 'fixed':
+            kw['input_streams'] = None
+        s = Session(**session_kw(kw, mount))
         s.start()
         history = case.get('history') or [[case.get('how', 'execute'), case['input']]]
         try:
@@ -622,6 +1245,8 @@ def replay(ctx, payload):
                 try:
                     if h[0] == 'evaluate':
                         s.evaluate(h[1].encode('latin-1'))
+                    elif h[0] == 'keys':
+                        s.press_keys(h[1])
                     else:
                         s.execute(h[1].encode('latin-1'))
                 except error.Exit:
